@@ -40,6 +40,31 @@ class Path:
     def events(self, kind=None):
         return [s for s in self.steps if s[0] == 'E' and (kind is None or s[1] == kind)]
 
+    def unmutated_value(self, term):
+        """an object reference whose object was not touched since it was bound stands for the value
+        it was bound to (single-exit style: `result = f(x)` ... `return result`)"""
+        if not (isinstance(term, tuple) and term[:1] == ('OBJ',)):
+            return term
+        name = term[1]
+
+        def touches(steps):
+            for s in steps:
+                if s[0] == 'E' and s[1] != 'assign':
+                    if contains(s[2], lambda x: x == term):
+                        return True
+                elif s[0] == 'LOOP':
+                    if any(touches(bp.steps) for bp in s[2]) or any(
+                            e[0] == 'E' and e[1] == 'assign' and e[2] == name for bp in s[2] for e in bp.steps):
+                        return True
+            return False
+        last = None
+        for i, s in enumerate(self.steps):
+            if s[0] == 'E' and s[1] == 'assign' and s[2] == name:
+                last = i
+        if last is None or touches(self.steps[last + 1:]):
+            return term
+        return self.steps[last][3]
+
     def describe(self):
         out = []
         for s in self.steps:
@@ -106,10 +131,36 @@ def set_module(tree):
     MODULE_HELPERS.clear()
     if tree is None:
         return
+    # record types of the subject: Name = _nt('Name', 'a, b, c') / namedtuple(...)
+    for n in tree.body:
+        if isinstance(n, ast.Assign) and len(n.targets) == 1 and isinstance(n.targets[0], ast.Name) \
+                and isinstance(n.value, ast.Call) and ast.unparse(n.value.func).split('.')[-1] in ('_nt', 'namedtuple') \
+                and len(n.value.args) == 2 and all(isinstance(a, ast.Constant) for a in n.value.args):
+            f = n.value.args[1].value
+            fields = tuple(x for x in (f.replace(',', ' ').split() if isinstance(f, str) else f))
+            RECORD_SIGS[n.targets[0].id] = fields
     for n in tree.body:
         if isinstance(n, ast.FunctionDef) and n.name not in ANCHORS and not n.name.startswith(
                 ('_try_', '_parse_', '_raise_error')) and len(list(ast.walk(n))) < 400:
             MODULE_HELPERS[n.name] = n
+
+
+RECORD_SIGS = {'_Position': ('index', 'line', 'column'), '_PositionInfo': ('start', 'end'),
+               '_Traversing': ('parent', 'field', 'child', 'is_finished')}
+
+
+def canon_calls(t, sigs=RECORD_SIGS):
+    """constructor calls of the runtime's record types with keyword arguments -> positional form"""
+    if not isinstance(t, tuple):
+        return t
+    t = tuple(canon_calls(x, sigs) for x in t)
+    if len(t) >= 2 and t[0] == 'CALL' and isinstance(t[1], tuple) and t[1][:1] == ('VAR',) and t[1][1] in sigs:
+        sig = sigs[t[1][1]]
+        pos = [a for a in t[2:] if not (isinstance(a, tuple) and a[:1] == ('KW',))]
+        kws = {a[1]: a[2] for a in t[2:] if isinstance(a, tuple) and a[:1] == ('KW',) and a[1] is not None}
+        if len(pos) + len(kws) == len(sig) == len(t) - 2 and all(k in sig[len(pos):] for k in kws):
+            return t[:2] + tuple(pos) + tuple(kws[k] for k in sig[len(pos):])
+    return t
 
 
 def render_parts(t):
@@ -209,8 +260,16 @@ class Enumerator:
             kind = {ast.List: 'LIST', ast.Tuple: 'TUPLE', ast.Set: 'SET'}[type(e)]
             return (kind,) + tuple(self.val(x, env) for x in e.elts)
         if isinstance(e, ast.Call):
-            return ('CALL', self.val(e.func, env)) + tuple(self.val(a, env) for a in e.args) + tuple(
+            t = ('CALL', self.val(e.func, env)) + tuple(self.val(a, env) for a in e.args) + tuple(
                 ('KW', k.arg, self.val(k.value, env)) for k in e.keywords)
+            if e.keywords and isinstance(e.func, ast.Name) and e.func.id in RECORD_SIGS:
+                sig = RECORD_SIGS[e.func.id]
+                kws = {k.arg: self.val(k.value, env) for k in e.keywords if k.arg is not None}
+                npos = len(e.args)
+                if npos + len(kws) == len(sig) == len(t) - 2 and all(k in sig[npos:] for k in kws) \
+                        and not any(isinstance(a, ast.Starred) for a in e.args):
+                    t = t[:2 + npos] + tuple(kws[k] for k in sig[npos:])
+            return t
         if isinstance(e, ast.Attribute):
             return ('ATTR', self.val(e.value, env), e.attr)
         if isinstance(e, ast.Subscript):
@@ -258,7 +317,7 @@ class Enumerator:
                 for n in ast.walk(g.target):
                     if isinstance(n, ast.Name):
                         env2[n.id] = ('ITEM', n.id)
-                gens.append(('GEN', ast.unparse(g.target), it))
+                gens.append(('GEN', ast.unparse(g.target), it) + tuple(self.val(c, env2) for c in g.ifs))
             return ('DICTCOMP', self.val(e.key, env2), self.val(e.value, env2)) + tuple(gens)
         if isinstance(e, ast.Dict):
             return ('DICT',) + tuple((self.val(k, env) if k is not None else ('STARSTAR',),
@@ -266,7 +325,10 @@ class Enumerator:
         if isinstance(e, ast.Lambda):
             return ('LAMBDA', ast.unparse(e))
         if isinstance(e, ast.NamedExpr):
-            return self.val(e.value, env)
+            v = self.val(e.value, env)
+            if isinstance(e.target, ast.Name):
+                env[e.target.id] = v           # the path's environment: later reads see the binding
+            return v
         return ('EXPR', ast.unparse(e))
 
     # ---- enumeration
@@ -573,7 +635,7 @@ class Enumerator:
         if T is ast.Return:
             if st.value is not None:
                 self.effects(st.value, p, st)
-            p.end = ('return', self.val(st.value, p.env), st)
+            p.end = ('return', p.unmutated_value(self.val(st.value, p.env)), st)
             return [p]
         if T is ast.Raise:
             p.end = ('raise', self.val(st.exc, p.env), st)
@@ -636,6 +698,58 @@ class Enumerator:
         if T in (ast.Import, ast.ImportFrom):
             return [p]
         raise Unsupported(f'statement {T.__name__} at line {getattr(st, "lineno", "?")}')
+
+
+def map_path(path, fn):
+    """a copy of the path with fn applied to every term of every step (loops included)"""
+    def m(x):
+        return fn(x) if isinstance(x, tuple) else x
+    q = Path(dict((k, m(v)) for k, v in path.env.items()), [], None)
+    for s in path.steps:
+        if s[0] == 'LOOP':
+            q.steps.append(('LOOP', s[1], [map_path(bp, fn) for bp in s[2]], s[3]))
+        elif s[0] == 'T':
+            q.steps.append(('T', m(s[1])) + tuple(s[2:]))
+        elif s[0] == 'E':
+            q.steps.append(('E', s[1], m(s[2]), m(s[3]) if isinstance(s[3], tuple) else s[3]) + tuple(s[4:]))
+        elif s[0] in ('X', 'Y'):
+            q.steps.append((s[0], m(s[1])) + tuple(s[2:]))
+        else:
+            q.steps.append(s)
+    if path.end is not None:
+        q.end = path.end if len(path.end) < 2 else (path.end[0], m(path.end[1])) + tuple(path.end[2:])
+    return q
+
+
+def fuse_comprehensions(t):
+    """(f(k, v) for k, v in ((a(x), b(x)) for x in it))  ->  (f(a(x), b(x)) for x in it); also
+    list(<generator>) inside a comprehension source is looked through"""
+    if not isinstance(t, tuple):
+        return t
+    t = tuple(fuse_comprehensions(x) for x in t)
+    if t[:1] == ('COMP',) and len(t) == 4 and len(t[3]) == 3:
+        gen = t[3]
+        src = gen[2]
+        while isinstance(src, tuple) and src[:2] == ('CALL', ('VAR', 'list')) and len(src) == 3:
+            src = src[2]
+        if isinstance(src, tuple) and src[:1] == ('COMP',) and len(src) == 4 and len(src[3]) == 3:
+            names = [n.strip() for n in gen[1].strip('()').split(',') if n.strip()]
+            inner_elt = src[2]
+            if len(names) == 1:
+                sub = {('ITEM', names[0]): inner_elt}
+            elif isinstance(inner_elt, tuple) and inner_elt[:1] == ('TUPLE',) and len(inner_elt) - 1 == len(names):
+                sub = {('ITEM', n): v for n, v in zip(names, inner_elt[1:])}
+            else:
+                return t
+
+            def rep(x):
+                if x in sub:
+                    return sub[x]
+                if isinstance(x, tuple):
+                    return tuple(rep(y) for y in x)
+                return x
+            return ('COMP', t[1], rep(t[2]), src[3])
+    return t
 
 
 def contains(t, pred):
